@@ -14,6 +14,7 @@
 
 import inspect
 import sys
+import traceback
 
 import qcore.helpers as core_helpers
 import qcore.inspection as core_inspection
@@ -150,7 +151,14 @@ class AsyncTask(futures.FutureBase):
     def _computed(self):
         try:
             if self._generator is not None:
-                self._generator.close()
+                try:
+                    self._generator.close()
+                except Exception as e:
+                    # The body raised while it was being closed (from a finally block or a
+                    # context's __exit__). This task already has its outcome, so there is nobody
+                    # to deliver the exception to; don't let it escape into the scheduler loop.
+                    print("exception ignored while closing asynq task: %s" % repr(e))
+                    traceback.print_exc()
                 self._generator = None
             if _debug_options.COLLECT_PERF_STATS is True:
                 self.collect_perf_stats()
